@@ -1525,6 +1525,9 @@ def remove_stns_sinex(sinex, sites):
         solution_epochs = read_sinex_solution_epochs_block(sinex)
         num_stns_to_remove = 0
         for line in solution_epochs:
+            if line.startswith('*') or line.startswith('+') or \
+                    line.startswith('-'):
+                continue
             site = line[1:5]
             if site in sites:
                 num_stns_to_remove += 1
